@@ -17,7 +17,7 @@ func main() {
 	r.Assume("credited outputs have positive value (property wording; zero-value credits are DESIGN O-6)", "sync heights below the highest mined block are never queried (documented caveat of Balance)", "histories are chain-consistent: no child confirmed before its parent, no two confirmed conflicting transactions, no unconfirmed transaction conflicting with the chain")
 	n := r.N(150, 3000)
 	cfg := ledger.Config{MinSteps: 20, MaxSteps: r.N(80, 200), Balance: true, Reopen: true}
-	dir, _ := os.MkdirTemp("", "c01")
+	dir := r.TempDir("c01")
 	defer os.RemoveAll(dir)
 	r.Parallel("history", n, evid.Workers(), func(i int, cs int64) {
 		c := cfg
